@@ -268,6 +268,8 @@ var rhSettings = []rhSetting{
 	{Name: "ct-gqlresp", Headers: map[string][]string{"Content-Type": {ctGQLResp}}},
 	{Name: "ct-json-charset", Headers: map[string][]string{"Content-Type": {"application/json; charset=utf-8"}, "X-Verif-Extra": {"2"}}},
 	{Name: "ct-gqlresp-charset", Headers: map[string][]string{"Content-Type": {"application/graphql-response+json; charset=utf-8"}}},
+	// header names are case-insensitive: a map literal may spell the key any way
+	{Name: "ct-gqlresp-lower-case-key", Headers: map[string][]string{"content-type": {ctGQLResp}, "x-verif-extra": {"3"}}},
 }
 
 // ---------------------------------------------------------------- the specification function
